@@ -15,7 +15,7 @@ import scen
 PROP = "C13"
 POOL = ["ed1", "ed2", "ed3", "ed4", "ed5", "ed6", "edp1", "edp2", "ec-b", "ec-c"]
 KINDS = ["summary_only", "disallow", "match_next", "agreeing_surplus", "two_failing_steps", "delegated_surplus",
-         "require", "summary_first_step", "multi_party_nested_dissent", "multi_party_digest_dissent"]
+         "require", "summary_first_step", "multi_party_nested_dissent", "multi_party_digest_dissent", "match_partial_digest_agreement"]
 
 
 def outcome_key(run, last):
@@ -138,6 +138,21 @@ def build(rng, W, kind):
                 else:
                     d[where][sorted(d[where])[0]] = scen.digest(0x34)
             add("build", k, d)
+    elif kind == "match_partial_digest_agreement":
+        # artifacts carry two digests; the next step's material agrees with the source on one algorithm and disagrees on
+        # the other: the descriptions are unequal, MATCH must not consume it, DISALLOW then rejects -- on every run
+        steps = [scen.mk_step("build", 1, [W.kid(keys[0])], [], [["ALLOW", "*"]], [["ALLOW", "*"]]),
+                 scen.mk_step("package", 1, [W.kid(keys[1])], [],
+                              [["MATCH", "*", "WITH", "PRODUCTS", "FROM", "build"], ["DISALLOW", "*"]], [["ALLOW", "*"]])]
+        src = variant_link("build", 0, 0)
+        for pth in src["products"]:
+            src["products"][pth] = {"sha256": "11" * 32, "sha512": "22" * 64}
+        add("build", keys[0], src)
+        d = pipeline.leaf_link("package", 1)
+        d["materials"] = {pth: {"sha256": "11" * 32, "sha512": "22" * 64} for pth in src["products"]}
+        odd = rng.choice(sorted(d["materials"]))
+        d["materials"][odd] = rng.choice([{"sha256": "11" * 32, "sha512": "33" * 64}, {"sha256": "44" * 32, "sha512": "22" * 64}])
+        add("package", keys[1], d)
     elif kind == "two_failing_steps":
         steps = [scen.mk_step("build", 1, [W.kid(keys[0])], [], [], [["DISALLOW", "*"]]),
                  scen.mk_step("package", 1, [W.kid(keys[1])], [], [["DISALLOW", "*"]], [])]
